@@ -239,3 +239,61 @@ func uniqueNames(ins []GInput) map[string]bool {
 	}
 	return m
 }
+
+// Traced is the result of a proxied Run.
+type Traced struct {
+	Outcome Outcome
+	Events  []Event
+	Model   *gonnx.Model
+	LoadErr error
+}
+
+// RunGraphTraced loads the graph from its bytes, attaches the operator proxy
+// (configure may set Inject/Yield) and runs it once.
+func RunGraphTraced(g *Graph, feed map[string]*ref.T, configure func(*Proxy)) Traced {
+	bytes := g.Bytes()
+	var tr Traced
+	var px *Proxy
+	phase := "load"
+	malformed := ""
+	tr.Outcome = Capture(&phase, func() ([]tensor.Tensor, error) {
+		m, err := gonnx.NewModelFromBytes(bytes)
+		if err != nil {
+			tr.LoadErr = err
+			return nil, err
+		}
+		tr.Model = m
+		px = Attach(m)
+		if configure != nil {
+			configure(px)
+		}
+		phase = "run"
+		in := gonnx.Tensors{}
+		for k, v := range feed {
+			in[k] = ToTensor(v)
+		}
+		res, err := m.Run(in)
+		if err != nil {
+			return nil, err
+		}
+		out := make([]tensor.Tensor, len(g.Outputs))
+		for i, o := range g.Outputs {
+			t, ok := res[o.Name]
+			if !ok {
+				malformed = fmt.Sprintf("declared output %q missing from the result map (no error reported)", o.Name)
+			}
+			out[i] = t
+		}
+		if len(res) != len(uniqueNames(g.Outputs)) {
+			malformed = fmt.Sprintf("result map has %d entries for %d declared outputs", len(res), len(g.Outputs))
+		}
+		return out, nil
+	})
+	if malformed != "" && tr.Outcome.Kind == Value {
+		tr.Outcome.ReadErr = malformed
+	}
+	if px != nil {
+		tr.Events = px.Events()
+	}
+	return tr
+}
